@@ -320,6 +320,7 @@ def gen_tables(tier, rng):
         out.append("notfnstatic %d" % rng.randint(-3, 3))
         out.append("voidret %d" % rng.randint(-1000, 1000))
         out.append("wrapcopy %d %d" % (rng.randint(-3, 3), rng.randint(-3, 3)))
+        out.append("ipfmem %d" % rng.randint(-1000, 1000))
         out.append("makepairref %d %d" % (rng.randint(-1000, 1000), rng.randint(-1000, 1000)))
     out.append("xfer")
     # tuple_cat result types (after the fix of the CTAD-built result) and tuple_element
@@ -331,6 +332,31 @@ def gen_tables(tier, rng):
         for c in R4:
             if not (k >= 4 and c < 2):
                 out.append(f"catk {k} {c}")
+    return out
+
+
+def gen_lang(tier, rng):
+    """the language rules Model.v part (iii) is written with, asked of the compiler over their whole finite domain"""
+    out = []
+    R4, R6 = range(4), range(6)
+    for k in R6:
+        for c in R6:
+            out.append(f"lang binds {k} {c}")
+            out.append(f"lang pmf {k} {c}")
+            if k >= 2:
+                out.append(f"lang scast {k} {c}")
+            if k < 4:
+                out.append(f"lang ovl {k} {c}")
+        for c in R4:
+            out.append(f"lang init {k} {c}")
+        out.append(f"lang collapse 0 {k}")
+        out.append(f"lang autolref 0 {k}")
+        out.append(f"lang autofwd 0 {k}")
+        for oc in range(2):
+            out.append(f"lang member {oc} {k}")
+    for c in R4:
+        out.append(f"lang dedfwd 0 {c}")
+        out.append(f"lang move 0 {c}")
     return out
 
 
@@ -400,6 +426,7 @@ def gen(tier, rng):
         tier = "thorough"
     out = []
     out += gen_tables(tier, rng)
+    out += gen_lang(tier, rng)
     out += gen_values(tier, rng)
     out += gen_ipf(tier, rng)
     out += gen_ipf_mixed(tier, rng)
